@@ -12,10 +12,13 @@ package ssa
 
 import (
 	"fmt"
+	"go/ast"
 	"go/importer"
+	"go/parser"
 	"go/token"
 	"go/types"
 	"os"
+	"sort"
 	"testing"
 
 	"github.com/goplus/gogen/packages"
@@ -355,7 +358,61 @@ func TestZZVerifSizes(t *testing.T) {
 			}()
 		}
 	}
-	for _, key := range []string{"host_mapdesc", "host_emitted", "host_plain", "host_align8", "host_funcvalue", "host_funcvalue_align8", "host_zerotail", "wasm32_plain", "wasm32_align8", "wasm32_funcvalue", "wasm32_funcvalue_align8", "wasm32_zerotail"} {
+	// declared (named) types as a type-checked program has them: package-level types, generic
+	// instantiations, and function-local types of the same name with different layouts, all through
+	// ONE Program / ONE descriptor builder, in declaration order and in reverse order
+	{
+		key := "host_named"
+		named := c08NamedTypes(t)
+		for pass := 0; pass < 2; pass++ {
+			prog := NewProgram(nil)
+			prog.TypeSizes(types.SizesFor("gc", "amd64"))
+			prog.SetRuntime(func() *types.Package {
+				imp := packages.NewImporter(token.NewFileSet())
+				rt, _ := imp.Import(PkgRuntime)
+				return rt
+			})
+			gp := (*goProgram)(prog)
+			order := append([]types.Type{}, named...)
+			if pass == 1 {
+				for i, j := 0, len(order)-1; i < j; i, j = i+1, j-1 {
+					order[i], order[j] = order[j], order[i]
+				}
+			}
+			for _, N := range order {
+				for _, T := range []types.Type{N, types.NewArray(N, 2), st(I8, N), types.NewArray(st(N, I8), 3)} {
+					func() {
+						bad0 := bad
+						defer func() {
+							if r := recover(); r != nil {
+								bad++
+								fmt.Printf("ZZFAIL ["+key+"] type=%s (%s) panic: %v\n", T, T.Underlying(), r)
+							}
+							c := counts[key]
+							c[0]++
+							if bad > bad0 {
+								c[1]++
+							}
+							counts[key] = c
+						}()
+						total++
+						lt := prog.Type(T, InGo)
+						a, b, c := gp.Sizeof(T), int64(prog.SizeOf(lt)), int64(prog.abi.Size(lt.raw.Type))
+						if a != b || b != c {
+							bad++
+							fmt.Printf("ZZFAIL ["+key+"] type=%s (%s) pass=%d size: folded=%d llvm=%d descriptor=%d\n", T, T.Underlying(), pass, a, b, c)
+						}
+						aa, ba, ca := gp.Alignof(T), int64(prog.td.ABITypeAlignment(lt.ll)), int64(prog.abi.Align(lt.raw.Type))
+						if b != 0 && (aa != ba || ba != ca) {
+							bad++
+							fmt.Printf("ZZFAIL ["+key+"] type=%s (%s) pass=%d align: folded=%d llvm=%d descriptor=%d\n", T, T.Underlying(), pass, aa, ba, ca)
+						}
+					}()
+				}
+			}
+		}
+	}
+	for _, key := range []string{"host_named", "host_mapdesc", "host_emitted", "host_plain", "host_align8", "host_funcvalue", "host_funcvalue_align8", "host_zerotail", "wasm32_plain", "wasm32_align8", "wasm32_funcvalue", "wasm32_funcvalue_align8", "wasm32_zerotail"} {
 		c := counts[key]
 		fmt.Printf("ZZBOUNDED %s types=%d pairs=%d failures=%d\n", key, len(fam), c[0], c[1])
 	}
@@ -364,3 +421,113 @@ func TestZZVerifSizes(t *testing.T) {
 	}
 }
 
+
+const c08NamedSrc = `package zn
+
+type Small struct{ tag int8 }
+
+func (Small) Kind() int { return 0 }
+
+type Wide struct {
+	id int64
+	w  [2]complex128
+}
+
+type Pair[T any] struct {
+	a T
+	b int8
+}
+
+type Arr[T any] [3]T
+
+type Fn func(int) int
+
+var (
+	_ Pair[int8]
+	_ Pair[int64]
+	_ Pair[string]
+	_ Pair[Small]
+	_ Arr[int8]
+	_ Arr[float64]
+	_ Arr[Wide]
+)
+
+func first() any {
+	type rec struct {
+		tag  int8
+		flag bool
+	}
+	type cell [3]int8
+	type num int8
+	type gen = Pair[num]
+	return [4]any{rec{}, cell{}, num(0), gen{}}
+}
+
+func second() any {
+	type rec struct {
+		id   int64
+		w    [2]complex128
+		ok   bool
+		next *Small
+	}
+	type cell [3]complex64
+	type num float64
+	type gen = Pair[num]
+	return [4]any{rec{}, cell{}, num(0), gen{}}
+}
+
+func third() any {
+	type rec struct {
+		s string
+		f Fn
+		b bool
+	}
+	type cell [2]string
+	type num complex128
+	if true {
+		type num int16
+		_ = num(0)
+	}
+	return [3]any{rec{}, cell{}, num(0)}
+}
+`
+
+// c08NamedTypes type-checks c08NamedSrc and returns every declared type and every generic
+// instantiation in it, in source order.
+func c08NamedTypes(t *testing.T) []types.Type {
+	fset := token.NewFileSet()
+	f, err := parser.ParseFile(fset, "zn.go", c08NamedSrc, 0)
+	if err != nil {
+		t.Fatal(err)
+	}
+	info := &types.Info{Defs: map[*ast.Ident]types.Object{}, Instances: map[*ast.Ident]types.Instance{}}
+	if _, err := (&types.Config{}).Check("zn", fset, []*ast.File{f}, info); err != nil {
+		t.Fatal(err)
+	}
+	type ent struct {
+		pos token.Pos
+		t   types.Type
+	}
+	var ents []ent
+	for id, obj := range info.Defs {
+		if tn, ok := obj.(*types.TypeName); ok && !tn.IsAlias() {
+			if n, ok := tn.Type().(*types.Named); ok && n.TypeParams().Len() == 0 {
+				ents = append(ents, ent{id.Pos(), n})
+			}
+		}
+	}
+	for id, inst := range info.Instances {
+		if _, ok := inst.Type.(*types.Named); ok {
+			ents = append(ents, ent{id.Pos(), inst.Type})
+		}
+	}
+	sort.Slice(ents, func(i, j int) bool { return ents[i].pos < ents[j].pos })
+	var ret []types.Type
+	for _, e := range ents {
+		ret = append(ret, e.t)
+	}
+	if len(ret) < 20 {
+		t.Fatalf("only %d declared types found", len(ret))
+	}
+	return ret
+}
